@@ -137,12 +137,17 @@ class State:
         s.extra = dict(self.extra)
         return s
 
-    def assume(self, f):
+    def assume(self, f, tag=None):
         if f is True or (z3.is_expr(f) and z3.is_true(f)):
             return
         if f is False:
             f = z3.BoolVal(False)
         self.pc.append(f)
+        if tag is not None:
+            TAGS.setdefault(f.get_id(), set()).add(tag)
+
+
+TAGS = {}   # z3 formula id -> tag of the hypothesis ("let", "have", "inst", "use", "inv:<name>", ...)
 
 
 NORMAL, RETURN, BREAK, CONTINUE, RAISE = "normal", "return", "break", "continue", "raise"
@@ -189,13 +194,33 @@ class Ctx:
         self.axioms.append(ax)
 
 
+def _idx_cmp(a, b):
+    """'eq' / 'ne' / None for two integer index terms, decided syntactically (linear difference)."""
+    if a.eq(b):
+        return "eq"
+    d = z3.simplify(a - b)
+    if z3.is_int_value(d):
+        return "eq" if d.as_long() == 0 else "ne"
+    return None
+
+
 def sel(term, *idx):
-    """select with eager beta-reduction of lambda arrays (keeps quantifier bodies free of lambdas)."""
+    """select with eager beta-reduction of lambda arrays and select-over-store resolution when the
+    index comparison is decided syntactically (keeps terms canonical for ratfun and small for z3)."""
     idx = [zint(i) for i in idx]
-    if z3.is_quantifier(term) and term.is_lambda() and term.num_vars() == len(idx):
-        return z3.substitute_vars(term.body(), *reversed(idx))
-    if z3.is_app(term) and term.decl().kind() == z3.Z3_OP_CONST_ARRAY and len(idx) == 1:
-        return term.arg(0)
+    while True:
+        if z3.is_quantifier(term) and term.is_lambda() and term.num_vars() == len(idx):
+            return z3.substitute_vars(term.body(), *reversed(idx))
+        if z3.is_app(term) and term.decl().kind() == z3.Z3_OP_CONST_ARRAY and len(idx) == 1:
+            return term.arg(0)
+        if z3.is_app(term) and term.decl().kind() == z3.Z3_OP_STORE and term.num_args() == len(idx) + 2:
+            cmps = [_idx_cmp(term.arg(1 + k), idx[k]) for k in range(len(idx))]
+            if all(c == "eq" for c in cmps):
+                return term.arg(len(idx) + 1)
+            if any(c == "ne" for c in cmps):
+                term = term.arg(0)
+                continue
+        break
     return z3.Select(term, *idx) if len(idx) > 1 else term[idx[0]]
 
 
@@ -252,10 +277,22 @@ class Exec:
         if z3.is_true(goal):
             return
         base = f"{self.fname}/{kind}/{name}"
+        if by is None:
+            import re as _re
+            for pat, b in self.ctx.options.get("by_id", []):
+                if _re.search(pat, base):
+                    by = b
+                    break
         n = self.obl_names.get(base, 0)
         self.obl_names[base] = n + 1
         oid = base if n == 0 else f"{base}#{n}"
         o = Obl(oid, kind, list(st.pc) + list(extra_hyps), goal, where=where, model=self.fm.name, by=by)
+        o.hyp_tags = [";".join(sorted(TAGS.get(h.get_id(), ()))) or None for h in o.hyps]
+        only = (by or {}).get("only")
+        if only is not None:
+            keep = [(h, t) for h, t in zip(o.hyps, o.hyp_tags) if t is not None and any(tt.startswith(x) for tt in t.split(";") for x in only)]
+            o.hyps = [h for h, _ in keep]
+            o.hyp_tags = [t for _, t in keep]
         self.ctx.obls.append(o)
         return o
 
@@ -960,7 +997,19 @@ class Exec:
                 if oc.kind != NORMAL:
                     nxt.append((cur, oc))
                     continue
-                nxt.extend(self.exec_stmt(s, cur))
+                res = self.exec_stmt(s, cur)
+                anchors = getattr(self.c, "anchors", None)
+                if anchors and not isinstance(s, (ast.For, ast.If)):
+                    txt = "after: " + ast.unparse(s)
+                    for key in anchors:
+                        # an anchor names the statement by its text or by a prefix of it (e.g. the assignment target)
+                        if txt == key or (key.endswith("=") and txt.startswith(key + " ")):
+                            self.ctx.anchors_hit = getattr(self.ctx, "anchors_hit", set())
+                            self.ctx.anchors_hit.add(key)
+                            for c2, o2 in res:
+                                if o2.kind == NORMAL:
+                                    self.apply_hints(c2, anchors[key], self.where(s))
+                nxt.extend(res)
             states = nxt
             if len(states) > self.ctx.options.get("max_paths", 4000):
                 raise Unsupported(f"path explosion ({len(states)}) at {self.where(s)}")
